@@ -1,4 +1,5 @@
 use c09::*;
+use proptest::strategy::Strategy;
 use vcore::Ctx;
 
 fn main() {
@@ -25,8 +26,8 @@ fn main() {
     ctx.replayer("writer-case", move |v| run_case(&serde_json::from_value::<Case>(v.clone()).expect("case"), buf, buffered));
     ctx.replayer("roundtrip-case", |v| run_roundtrip(&serde_json::from_value::<RtCase>(v.clone()).expect("case")));
     ctx.begin();
-    ctx.prop("histories", "writer-case", ctx.n(3_000, 100_000), case(buf, 30), move |c| run_case(c, buf, buffered));
+    ctx.prop_split("histories", "writer-case", ctx.n(3_000, 100_000), ctx.parts(), case(buf, 30).boxed(), move |c| run_case(c, buf, buffered));
     ctx.prop("short-histories", "writer-case", ctx.n(3_000, 60_000), case(buf, 5), move |c| run_case(c, buf, buffered));
-    ctx.prop("roundtrip", "roundtrip-case", ctx.n(4_000, 100_000), rt_case(20), run_roundtrip);
+    ctx.prop_split("roundtrip", "roundtrip-case", ctx.n(4_000, 100_000), ctx.parts(), rt_case(20).boxed(), run_roundtrip);
     ctx.finish();
 }
